@@ -22,18 +22,29 @@ def layer_class(mm):
     return 'correspondence'
 
 
-def _fails_same(hist, want_class):
+def _fails_same(hist, want_class, want_what=None):
     try:
         mm = run_batch([hist])[0]
     except Exception:
         return False
-    return bool(mm) and layer_class(mm) == want_class
+    if not mm or layer_class(mm) != want_class:
+        return False
+    if want_what is not None and not any(m['what'][:32] == want_what for m in mm):
+        return False
+    return True
 
 
-def shrink(hist, want_class, budget=120):
-    """greedy delta-debugging: drop steps, then shrink pixel lists of update steps"""
+def shrink(hist, want_class, budget=120, want_what=None):
+    """greedy delta-debugging: drop steps, then shrink pixel lists of update steps; the shrunk
+    history must still show a mismatch of the same class and the same kind (first 32 characters)"""
     cur = list(hist)
     tests = 0
+    if want_what is None:
+        try:
+            mm0 = run_batch([hist])[0]
+            want_what = mm0[0]['what'][:32] if mm0 else None
+        except Exception:
+            want_what = None
     # 1. cut after the first failing check
     changed = True
     while changed and tests < budget:
@@ -43,7 +54,7 @@ def shrink(hist, want_class, budget=120):
                 continue
             cand = cur[:i] + cur[i + 1:]
             tests += 1
-            if _fails_same(cand, want_class):
+            if _fails_same(cand, want_class, want_what):
                 cur = cand
                 changed = True
                 break
@@ -61,7 +72,7 @@ def shrink(hist, want_class, budget=120):
                 st2['values'] = cur[i]['values'][:j] + cur[i]['values'][j + 1:]
             cand = cur[:i] + [st2] + cur[i + 1:]
             tests += 1
-            if _fails_same(cand, want_class):
+            if _fails_same(cand, want_class, want_what):
                 cur = cand
             else:
                 j += 1
